@@ -400,6 +400,11 @@ func (g *qgen) cell(dt string) string {
 	case "int":
 		return g.intCell()
 	case "dec":
+		if g.r.Intn(25) == 0 {
+			// large and tiny magnitudes (positional vs exponent formatting, precision of conversions)
+			xs := []float64{1e6, -2.5e6, 123456789.25, 1e-5, -2.5e-5, 1e21, 1.5e-7, 9007199254740993, 0.1, 1e15 + 0.5}
+			return fmt.Sprintf("d:%016x", math.Float64bits(xs[g.r.Intn(len(xs))]))
+		}
 		return qDecCell(g.r.Range(-80, 80))
 	case "str":
 		return qQ(g.pick(qStrPool))
